@@ -32,12 +32,12 @@ import (
 // ------------------------------------------------------------------ toy parameter sets
 
 type pcMtaSet struct {
-	Cv       *pcCurve
-	N, P, Q  *big.Int // Paillier modulus and its factors
-	NT       *big.Int // ring-Pedersen modulus (a product of two safe primes), h2 = h1^X2 in the squares
-	H1, H2   *big.Int
-	Pp, Qp   *big.Int // NT = (2Pp+1)(2Qp+1)
-	Name     string
+	Cv      *pcCurve
+	N, P, Q *big.Int // Paillier modulus and its factors
+	NT      *big.Int // ring-Pedersen modulus (a product of two safe primes), h2 = h1^X2 in the squares
+	H1, H2  *big.Int
+	Pp, Qp  *big.Int // NT = (2Pp+1)(2Qp+1)
+	Name    string
 }
 
 func pcMtaSets() []pcMtaSet {
@@ -109,7 +109,7 @@ func (g *pcToyGen) add(l *pcLine) {
 	g.lines = append(g.lines, l)
 }
 
-func (g *pcToyGen) below(n int64) *big.Int { return pcB(g.rng.Int63n(n)) }
+func (g *pcToyGen) below(n int64) *big.Int    { return pcB(g.rng.Int63n(n)) }
 func (g *pcToyGen) pick(xs ...int64) *big.Int { return pcB(xs[g.rng.Intn(len(xs))]) }
 
 func (g *pcToyGen) sess() []byte {
